@@ -1,1 +1,37 @@
-From VGI Require Import M_Url G_Url.
+(* Tie: what translate/t_c37_src.py regenerates from vgi_rpc/http/_oauth_pkce.py on every run (gen/G_Url.v) is what
+   the C37 theorems are about. *)
+From Coq Require Import List NArith Bool.
+From VGI Require Import Bytes Layout Utf8 M_Url L_Url L_UrlSafe L_UrlOrig G_Url P_C37.
+Import ListNotations.
+Open Scope N_scope.
+
+Lemma url_tie :
+  gen_rt_chk_bs = true /\ gen_orig_chk = true /\
+  gen_rt_max_len = 2048 /\ gen_max_original_url_len = 2048 /\ gen_localhost_names = localhost_names /\
+  gen_cookie_version = cookie_version /\ gen_session_max_age = 600 /\ gen_hmac_len = 32 /\ gen_unpack_min_len = 49 /\
+  gen_cookie_layout = cookie_layout /\ gen_flow_sites_ok = true.
+Proof. repeat split; reflexivity. Qed.
+
+(* the default allowlist of the source is a list of well-formed entries *)
+Theorem C37_source_default_allowlist_wf :
+  gen_default_allowed = map render gen_default_entries /\ forallb entry_wf gen_default_entries = true.
+Proof. split; vm_compute; reflexivity. Qed.
+
+(* the theorems restated over the generated flags / constants / allowlist: statements about the source *)
+Theorem C37_source_location_safe_partial : forall brk u params base,
+  has 91 u = false ->
+  validate_return_to_gen gen_rt_chk_bs gen_rt_max_len gen_localhost_names brk gen_default_allowed u = Accept ->
+  origin_ok gen_default_entries (whatwg_origin base (location_of u params)).
+Proof.
+  intros brk u params base Hb H. destruct url_tie as [E1 [_ [E3 [_ [E5 _]]]]]. rewrite E1, E3, E5 in H.
+  destruct C37_source_default_allowlist_wf as [Ea Ew]. rewrite Ea in H.
+  exact (C37_location_safe_partial brk gen_default_entries u params base Ew Hb H).
+Qed.
+
+Theorem C37_source_original_same_origin : forall brk prefix u v base,
+  (prefix = [] \/ orig_guard prefix = false) ->
+  validate_original_url_gen gen_orig_chk gen_max_original_url_len brk prefix u = POk v -> whatwg_origin base v = OBase.
+Proof.
+  intros brk prefix u v base Hp H. destruct url_tie as [_ [E2 [_ [E4 _]]]]. rewrite E2, E4 in H.
+  exact (C37_original_same_origin brk prefix u v base Hp H).
+Qed.
